@@ -431,7 +431,15 @@ impl FixtureDatabase {
                     debug!("Analyzing imported module: {:?}", module_path);
                     match std::fs::read_to_string(module_path) {
                         Ok(content) => {
-                            self.analyze_file_fresh(module_path.clone(), &content);
+                            // A module whose cached text was evicted may already have index
+                            // entries: those must be replaced, not added to.
+                            if self.file_definitions.contains_key(module_path)
+                                || self.usages.contains_key(module_path)
+                            {
+                                self.analyze_file(module_path.clone(), &content);
+                            } else {
+                                self.analyze_file_fresh(module_path.clone(), &content);
+                            }
                         }
                         Err(err) => {
                             debug!("Failed to read imported module {:?}: {}", module_path, err);
